@@ -254,6 +254,28 @@ def noise_packets(ci, spec):
             b = bytearray(rbytes(rnd, rnd.randrange(24, 120)))
             b[0] = (b[0] | 0x40) & 0x7F      # fixed bit set, short header shape
             out.append(LPkt(ci, "udp", bool(rnd.getrandbits(1)), bytes(b), ep, tag="noise"))
+    elif what == "udp_struct":
+        # datagrams shaped like QUIC headers (or not at all), to any port
+        for i in range(n):
+            shape = spec.get("shapes", ["rand", "long", "short", "vn", "tiny", "long_trunc"])[i % len(spec.get("shapes", [0] * 6))]
+            if shape == "rand":
+                b = rbytes(rnd, rnd.randrange(1, 1500))
+            elif shape == "tiny":
+                b = bytes([rnd.choice([0xC0, 0xC3, 0x40, 0x80, 0xFF, 0x00, 0xE5])]) + rbytes(rnd, rnd.randrange(0, 6))
+            elif shape == "long":
+                dl, sl = rnd.choice([0, 1, 8, 20, 21, 255]), rnd.choice([0, 4, 8, 20, 200])
+                ver = rnd.choice([b"\x00\x00\x00\x01", b"\x6b\x33\x43\xcf", b"\xff\x00\x00\x1d", rbytes(rnd, 4)])
+                b = bytes([0xC0 | rnd.getrandbits(6)]) + ver + bytes([dl]) + rbytes(rnd, min(dl, 40)) + bytes([sl]) + rbytes(rnd, min(sl, 40)) + \
+                    rbytes(rnd, rnd.randrange(0, 300))
+            elif shape == "long_trunc":
+                full = bytes([0xC0 | rnd.getrandbits(4)]) + b"\x00\x00\x00\x01\x08" + rbytes(rnd, 8) + b"\x08" + rbytes(rnd, 8) + b"\x00\x44\x00" + rbytes(rnd, 60)
+                b = full[:rnd.randrange(1, len(full))]
+            elif shape == "vn":
+                b = bytes([0x80 | rnd.getrandbits(7)]) + b"\x00\x00\x00\x00" + bytes([8]) + rbytes(rnd, 8) + bytes([8]) + rbytes(rnd, 8) + \
+                    rbytes(rnd, 4 * rnd.randrange(0, 4) + rnd.choice([0, 0, 1]))
+            else:  # short
+                b = bytes([0x40 | rnd.getrandbits(6)]) + rbytes(rnd, rnd.randrange(0, 200))
+            out.append(LPkt(ci, "udp", bool(rnd.getrandbits(1)), b, ep, tag="noise"))
     elif what == "arp":
         for i in range(n):
             p = LPkt(ci, "raw", False, b"", ep, tag="noise")
@@ -325,7 +347,7 @@ def assign_times(pkts, tseed=0, t0=T0):
     t = t0 + rnd.randrange(0, 1_000_000)
     for p in pkts:
         p.ts = t
-        t += rnd.randrange(1, 4000) if tseed else 1000
+        t += rnd.randrange(2, 4000) if tseed else 1000
     return pkts
 
 
